@@ -243,6 +243,10 @@ LeafWhys(c, lf) ==
     IF res.kind = "ok" /\ honourable /\ \E k \in DOMAIN as : as[k].v \notin info.kept \cup info.titled THEN "P:C10:atom-is-neither-a-kept-word-nor-its-title-cased-form" ELSE "ok",
     IF res.kind = "ok" /\ res.str # Concat(res.toks, 1) THEN "P:C05:String()-is-not-the-concatenation-of-token-values" ELSE "ok",
     IF res.kind = "ok" /\ c.ent.k # "panic" /\ SepEntropyFixed /\ ~SameFloat(res.ent, c.ent) THEN "P:C06:Password.Entropy-differs-from-recipe-Entropy()" ELSE "ok",
+    \* the choices of this very run are made with probability 1/pp (pp = product of the bounds of all its draws, each index having
+    \* probability 1/bound by C01) and determine the password, so the password has at least that probability: pp >= 2^Entropy
+    IF res.kind = "ok" /\ lf.unann = 0 /\ lf.left = 0 /\ res.ent.k = "fin" /\ lf.pp # <<>> /\ ~EntropyNotAbove(res.ent, lf.pp, Tol)
+      THEN "P:C06:the-choices-that-produced-this-password-are-likelier-than-2^-Entropy" ELSE "ok",
     IF lf.det = 0 THEN "P:C09:same-choices-from-the-source-gave-a-different-result" ELSE "ok",
     IF res.kind = "ok" /\ lf.reads = 0 /\ c.size > 1 THEN "P:C09:password-produced-without-reading-the-random-source" ELSE "ok",
     IF lf.unann > 0 THEN "S:random-source-read-without-an-announced-bounded-draw" ELSE "ok",
